@@ -396,14 +396,24 @@ def run_property(mod, tier, seed, replay=None):
   else:
     cases = load_corpus(prop) + list(mod.generate(tier, rng))
   per_case_timeout = getattr(mod, 'CASE_TIMEOUT', 60)
+  try:   # pay the 5-20 s fedjax/TF import outside the per-case watchdog
+    import fedjax  # noqa: F401
+    if hasattr(mod, 'warmup'):
+      mod.warmup()
+  except Exception as ex:
+    log(f'[{prop}] warmup failed: {ex!r}')
   observed, violations, dist = [], [], {}
   seen_nontrivial = set()
+  hangs = 0
   for case in cases:
+    if hangs >= 3:   # every further hang costs a full timeout; three replays are enough
+      break
     try:
       obs, err = with_watchdog(mod.run, per_case_timeout, case)
     except Exception as ex:  # harness/implementation raised outside the modelled error enum
       obs, err = None, 'exception: ' + ''.join(traceback.format_exception_only(type(ex), ex)).strip()
     if err == 'hang':
+      hangs += 1
       violations.append(Violation(mod.hang_key(case) if hasattr(mod, 'hang_key') else 'hang',
                                   f'implementation did not return within {per_case_timeout}s', case, None))
       observed.append((case, None))
@@ -433,8 +443,9 @@ def run_property(mod, tier, seed, replay=None):
                if not a.startswith('Closed under the global context') and
                not all(any(w in line for w in STD_AXIOM_WHITELIST) for line in a.split('\n')[1:] if line.strip() and not line.startswith(' '))}
   broken = []
+  needed_gen = {os.path.basename(f)[:-2] for f in files if os.sep + 'gen' + os.sep in f}
   for m, e in b['translator'].items():
-    if e is not None:
+    if e is not None and m in needed_gen:
       broken.append({'kind': 'translator_anchor', 'module': m, 'error': e})
   if not b['ok']:
     broken.append({'kind': 'theorem', 'blame': b['blame'], 'log_tail': b['log'][-1500:]})
@@ -485,7 +496,7 @@ def run_property(mod, tier, seed, replay=None):
         continue
       searched += 1
       if err == 'hang':
-        violations.append(Violation('hang', 'implementation did not return', case, None))
+        violations.append(Violation(mod.hang_key(case) if hasattr(mod, 'hang_key') else 'hang', 'implementation did not return', case, None))
         break
       for key, what in mod.oracle(case, obs):
         violations.append(Violation(key, what, case, obs))
@@ -533,7 +544,7 @@ def run_property(mod, tier, seed, replay=None):
           'trusted_base': TRUSTED_BASE_COMMON + list(getattr(mod, 'TRUSTED', [])),
           'theorems': b.get('asked', []),
           'assumptions_printed': b.get('assumptions', {}),
-          'translator': {m: ('ok' if e is None else e) for m, e in b['translator'].items()},
+          'translator': {m: ('ok' if e is None else e) for m, e in b['translator'].items() if m in needed_gen},
           'proof_files': [os.path.relpath(f, COQ) for f in files],
           'evaluations': len(cases) + searched,
           'model_evaluations_in_coq': n_model,
@@ -563,15 +574,19 @@ def shrink(mod, case, key, timeout):
   cur = case
   improved = True
   steps = 0
-  while improved and steps < 200:
+  t_end = time.time() + 60
+  while improved and steps < 200 and time.time() < t_end:
     improved = False
     for cand in mod.shrink(cur):
       steps += 1
+      if time.time() > t_end:
+        break
       try:
         obs, err = with_watchdog(mod.run, timeout, cand)
       except Exception:
         continue
-      keys = ['hang'] if err == 'hang' else [k for k, _ in mod.oracle(cand, obs)] if err is None else []
+      hk = mod.hang_key(cand) if hasattr(mod, 'hang_key') else 'hang'
+      keys = [hk] if err == 'hang' else [k for k, _ in mod.oracle(cand, obs)] if err is None else []
       if key in keys:
         cur = cand
         improved = True
